@@ -434,14 +434,15 @@ def run(ctx):
                 form = None
         style = rng.choice(["single", "single", "grouped", "untyped_tail"])
         titems = shuffled_types_items(rng, w) if rng.random() < 0.5 else None
-        ast = w.domain_ast(param_style=style, types_items=titems)
+        cstyle = rng.choice(["single", "single", "grouped", "untyped_tail"])
+        ast = w.domain_ast(param_style=style, types_items=titems, const_style=cstyle)
         if form == "either-param":
             # typed_items rendered the tuple type; turn it into a list form
             ast = fix_either(ast)
         hostile = rng.choice([0.0, 0.2, 0.6])
         upper = rng.choice([0.0, 0.0, 0.4, 1.0])
         text = sx.render(ast, rng, hostile=hostile, upper=upper, crlf=rng.random() < 0.2)
-        feats = {"params:" + style, "layout:hostile" if hostile else "layout:plain", "case:mixed" if upper else "case:lower",
+        feats = {"params:" + style, "constants:" + cstyle + ("+root-typed" if "object" in w.constants.values() else ""), "layout:hostile" if hostile else "layout:plain", "case:mixed" if upper else "case:lower",
                  "types:shuffled" if titems else "types:parents-first"}
         for a in w.actions:
             feats |= {f for f in gen.features_of(a["pre"]) | gen.features_of(a["eff"]) if "@" not in f}
